@@ -337,7 +337,7 @@ func GenPKG(w *World, maxEdits int, opts ...string) *Scenario {
 		if i == 0 {
 			class = "valid"
 		}
-		if noErrorLoops && (class == "bad-manifest" || class == "bad-object" || class == "dup-version") {
+		if noErrorLoops && (class == "bad-manifest" || class == "bad-object" || class == "dup-version" || class == "scope-namespaced" || class == "scope-cluster") {
 			// these fail on every pass without ever persisting status: transient faults
 			// leave residue in conditions that says nothing about convergence
 			class = "no-manifest"
